@@ -62,7 +62,7 @@ class Gen:
             f = self.newfield(kind, "U0")
             return {"op": "cap", "f": f, "fk": kind, "kid": {"op": "union", "u": "U0"}}
         if getattr(self, "use_user", False) and r > 0.88:
-            kind = self.rng.choice(["unode", "unodes"])
+            kind = self.rng.choice(["unode", "unodes", "cnode", "cnodes"])
             f = self.newfield(kind)
             return {"op": "cap", "f": f, "fk": kind, "kid": {"op": "user"}}
         kinds = ["string", "strings", "bool"] + self.kinds_extra
